@@ -276,6 +276,9 @@ def run(ctx):
     scripts += refs
     kinds += ["reference"] * len(refs)
     roles = G.role_scripts()          # deterministic: every name kind in every framer/tasker/frame position
+    if not ctx.thorough:             # quick tier: all one-slot scripts, every third two-slot script
+        n1 = sum(len(G.ROLE_NAMES) if "{X}" in t else 1 for t in G.ROLE_ONE)
+        roles = roles[:n1] + roles[n1::3]
     scripts += roles
     kinds += ["role"] * len(roles)
     for _ in range(ctx.n(300, 6000)):
